@@ -5,6 +5,14 @@
 (* it; the trailer of the most recent revision.  A revision is              *)
 (*   [objs |-> <<[num, gen, val]>>, comp |-> <<[cnum, members |-> <<[num, val]>>]>>, trailer |-> map] *)
 (* (comp: objects stored in object streams; they have generation 0).        *)
+(*                                                                          *)
+(* Free entries (7.5.4, 7.5.8.3 type 0): a revision may carry the optional  *)
+(* field  free |-> <<[num, gen]>> : the object numbers its cross-reference   *)
+(* section marks free; gen is the generation number the entry records, i.e. *)
+(* the one the number gets when it is used again.  From that revision on    *)
+(* the number denotes no object (a reference to it is a reference to null)  *)
+(* until a later revision defines it again.  Records without the field      *)
+(* mean what they always meant.                                             *)
 (***************************************************************************)
 EXTENDS PdfObjects
 
@@ -15,13 +23,52 @@ RevDefs(rev) ==
     IN FoldLeft(LAMBDA acc, c : FoldLeft(LAMBDA a2, m : MapPut(a2, m.num, [gen |-> 0, val |-> m.val]), acc, c.members),
                 plain, rev.comp)
 
+\* numbers one revision marks free: <<[num, gen]>>
+RevFree(rev) == IF "free" \in DOMAIN rev THEN rev.free ELSE <<>>
+FreeNums(rev) == {RevFree(rev)[i].num : i \in 1..Len(RevFree(rev))}
+FreeGenOf(rev, n) == RevFree(rev)[CHOOSE i \in 1..Len(RevFree(rev)) : RevFree(rev)[i].num = n].gen
+
 Overlay(older, newer) == [n \in DOMAIN older \cup DOMAIN newer |-> IF n \in DOMAIN newer THEN newer[n] ELSE older[n]]
 
+\* one revision applied to the view before it: its definitions replace, its free entries delete
+ApplyRev(acc, rev) ==
+    LET o == Overlay(acc, RevDefs(rev))
+    IN IF FreeNums(rev) = {} THEN o ELSE [n \in DOMAIN o \ FreeNums(rev) |-> o[n]]
+
 \* View of the first j revisions
-ViewUpTo(revs, j) == FoldLeft(LAMBDA acc, r : Overlay(acc, RevDefs(revs[r])), EmptyMap, [r \in 1..j |-> r])
+ViewUpTo(revs, j) == FoldLeft(LAMBDA acc, r : ApplyRev(acc, revs[r]), EmptyMap, [r \in 1..j |-> r])
 View(revs) == ViewUpTo(revs, Len(revs))
 
 \* numbers defined in some revision before the last and redefined later (history matters for them)
 Redefined(revs) ==
     {n \in DOMAIN View(revs) : Cardinality({r \in 1..Len(revs) : n \in DOMAIN RevDefs(revs[r])}) >= 2}
+
+-----------------------------------------------------------------------------
+(* Deleted objects *)
+
+\* numbers some revision up to j defined and that denote no object after revision j
+EverDefined(revs, j) == UNION {DOMAIN RevDefs(revs[r]) : r \in 1..j}
+DeletedUpTo(revs, j) == EverDefined(revs, j) \ DOMAIN ViewUpTo(revs, j)
+Deleted(revs) == DeletedUpTo(revs, Len(revs))
+
+\* the generation a deleted number gets when it is used again: recorded by the newest free entry for it
+NextGenUpTo(revs, j) ==
+    [n \in DeletedUpTo(revs, j) |->
+        LET r == CHOOSE q \in 1..j : n \in FreeNums(revs[q]) /\ \A p \in (q + 1)..j : n \notin FreeNums(revs[p])
+        IN FreeGenOf(revs[r], n)]
+
+\* A history whose free entries follow 7.5.4: only an object of the view is freed, a revision does not both
+\* define and free a number, the recorded generation is one more than the freed object's (at most 65535), and
+\* a number that is used again carries the recorded generation (so it cannot live in an object stream).
+HistoryOk(revs) ==
+    \A r \in 1..Len(revs) :
+        LET before == ViewUpTo(revs, r - 1)
+            gone == IF r = 1 THEN EmptyMap ELSE NextGenUpTo(revs, r - 1)
+            fr == RevFree(revs[r])
+        IN /\ \A i \in 1..Len(fr) :
+                 /\ fr[i].num \in DOMAIN before
+                 /\ fr[i].num \notin DOMAIN RevDefs(revs[r])
+                 /\ fr[i].gen = before[fr[i].num].gen + 1 /\ fr[i].gen <= 65535
+                 /\ \A j \in 1..Len(fr) : fr[j].num = fr[i].num => i = j
+           /\ \A n \in DOMAIN RevDefs(revs[r]) \cap DOMAIN gone : RevDefs(revs[r])[n].gen = gone[n]
 =============================================================================
